@@ -1846,10 +1846,11 @@ class TestGraph(object):
             )
             graph.new_nodes(leaves)
             # TODO: to make such changes more gradual at least for now reuse vms and image (<net) objects
-            if i == 0:
-                graph.new_objects(stubs)
-            else:
-                graph.new_objects([s for s in stubs if s.key == "nets"])
+            # (a later worker could still bring vm variants that no earlier worker supports)
+            old_ids = {o.id for o in graph.objects}
+            graph.new_objects(
+                [s for s in stubs if s.key == "nets" or s.id not in old_ids]
+            )
             leaves = sorted(
                 leaves, key=lambda x: int(re.match(r"^(\d+)", x.prefix).group(1))
             )
